@@ -1,5 +1,7 @@
 #![allow(dead_code, unused_mut, clippy::all)]
 mod c01;
+mod c02;
+mod c04;
 mod corpus;
 mod dbg;
 mod endpoints;
@@ -8,6 +10,8 @@ mod iso;
 mod oracle;
 mod outcome;
 mod sched;
+mod suite;
+mod typed;
 
 fn main() {
     let args: Vec<String> = std::env::args().collect();
@@ -27,6 +31,10 @@ fn main() {
     let code = match id {
         "C01" if worker => c01::worker(tier),
         "C01" => c01::run(tier, replay),
+        "C02" if worker => c02::worker(tier),
+        "C02" => c02::run(tier, replay),
+        "C04" if worker => c04::worker(tier),
+        "C04" => c04::run(tier, replay),
         _ => {
             eprintln!("usage: codec_harness <C01..C06|C14> quick|thorough [--replay file]");
             2
